@@ -554,7 +554,6 @@ func NewApp(
 		slashingtypes.ModuleName,
 		govtypes.ModuleName,
 		enttypes.ModuleName,
-		crisistypes.ModuleName,
 		ibcexported.ModuleName,
 		genutiltypes.ModuleName,
 		evidencetypes.ModuleName,
@@ -570,6 +569,9 @@ func NewApp(
 		beacontypes.ModuleName,
 		wrkchaintypes.ModuleName,
 		streamtypes.ModuleName,
+		// crisis asserts every registered invariant during InitGenesis, so it must come after all
+		// modules whose invariants compare their own state with bank balances (stream, enterprise)
+		crisistypes.ModuleName,
 	}
 
 	app.ModuleManager.SetOrderInitGenesis(genesisModuleOrder...)
